@@ -309,6 +309,44 @@ func runCB(x *X) {
 				}
 			}
 		}
+	} else if ok && accepted && x.Want("C08") && timeout >= 4*time.Millisecond && c.Intn(4, "recovery-under-steady-callers") == 0 {
+		// Callers that never back off: from a known-closed breaker, failure_threshold failures open
+		// it, and from then on a request arrives every quarter of `timeout`, each of which would
+		// succeed. Refusals while open are no news about the backend: one `timeout` after the opening
+		// trials must be let through, and a bounded number of successes later the breaker is closed.
+		x.Advance(timeout+time.Millisecond, onErr)
+		for k := 0; k < st+mr+1 && !x.dead; k++ {
+			x.Do("towards-closed", func() { doExec(cbOp{kind: "exec", outcome: "ok"}) }, onErr)
+		}
+		var stt circuitbreaker.State
+		x.Do("state", func() { stt = cb.State() }, onErr)
+		if stt == circuitbreaker.StateClosed && !x.dead {
+			for k := 0; k < ft && !x.dead; k++ {
+				x.Do("trip", func() { doExec(cbOp{kind: "exec", outcome: "fail"}) }, onErr)
+			}
+			x.Do("state", func() { stt = cb.State() }, onErr)
+			if stt == circuitbreaker.StateOpen && !x.dead {
+				gap := timeout / 4
+				var rets []string
+				closed := false
+				// 4 gaps reach the end of the open period; st+mr+1 more admitted successes close it
+				for k := 0; k < 4+2*(st+mr+1)+2 && !x.dead && !closed; k++ {
+					x.Advance(gap, onErr)
+					var r string
+					x.Do("steady", func() { r = doExec(cbOp{kind: "exec", outcome: "ok"}) }, onErr)
+					rets = append(rets, r)
+					x.Do("state", func() { stt = cb.State() }, onErr)
+					closed = stt == circuitbreaker.StateClosed
+				}
+				if !x.dead {
+					if !closed {
+						x.Violate("C08", "C08/no-recovery{steady-callers}", "breaker opened and a request that would succeed arrived every %v (timeout %v) for %d gaps: it never closed (ft=%d st=%d mr=%d): returns=%v", gap, timeout, len(rets), ft, st, mr, rets)
+					} else {
+						x.Probe("recovered-under-steady-callers")
+					}
+				}
+			}
+		}
 	} else if ok && accepted && x.Want("C08") && c.Intn(3, "recovery-with-overlapping-traffic") == 0 {
 		// The same claim with traffic that overlaps: every `timeout` a group of 2-4 requests
 		// arrives together, every one that is admitted succeeds. Requests refused while trials
